@@ -23,6 +23,45 @@ CLAIMED = {
             "regions and cells (C02_T4_simplex_mono).",
             "4/C02", "no explicit Lipschitz/continuity theorem (continuity follows from the closed-cell formulas); int32 cast range and "
             "float behaviour are outside the model. "),
+    "C03": ("Lean 4 theorems on a model of the premade_lib builder decision logic (buildSpec: config -> layer graph) + abstract "
+            "composite of arbitrary layer functions with exactly the per-layer properties (composition of monotone maps, weighted "
+            "averages) + invariant over histories of arbitrary updates each followed by the constraints, instantiated with "
+            "C01/C02/C04-C07/C20 + structural correspondence (walk of the real Keras graph of tfl.premade.* and hand-assembled "
+            "stacks vs buildSpec through the native driver) + hostile real histories (random assignment x{1,10,100}, all-negative, "
+            "SGD/Adam lr 50 via GradientTape and model.fit, set_weights on a fresh model) + pairwise monotonicity / bounds oracle",
+            "Theorems (Props/C03.lean), all configs buildSpec accepts (calibrated linear / lattice, explicit, random and RTL "
+            "ensembles, all-vertices / KFL, +/- output calibration, any feature mix / sizes / units), all histories of arbitrary "
+            "updates from any start, all inputs: T1 every constraint establishes its invariant from any input (per layer kind: "
+            "PWL, categorical, Lattice class A, KFL, Linear), T2 a constrained feature reaches the output only through monotone "
+            "layers (structural lemma for all four graph shapes incl. the RTL structure for every pair of shuffles) hence the model "
+            "is monotone in it for all pairs of non-missing points, T3 output within [output_min, output_max] incl. missing values.",
+            "4/C03", "PARTIAL (C03_partial vs the unrestricted `def C03_full`): hypotheses = recorded findings, each with a "
+            "counter-witness theorem: F-C03-a normalised Linear with all weights <= 0 (Nondegenerate), F-C03-b categorical pairs "
+            "violated right after construction (history non-empty or no pairs), F-C03-d non-lowercase monotonicity strings in RTL "
+            "ensembles and F-C03-e tuple-valued category pairs (SpelledCanonically); F-C03-c (fixed b13cb79) has a theorem on the "
+            "fixed rule and a counter-witness on the old-rule variant. Layers are abstract functions with the per-layer "
+            "properties: lattice blocks use C01 class A (no trapezoid trusts) + C02 hypercube (simplex all-pairs monotonicity is "
+            "C02's open `def`), oracle-covered otherwise; that Keras re-applies constraints after every optimizer step is "
+            "runtime behaviour exercised by the SGD/Adam/fit histories, not proved. "),
+    "C11": ("AST translator -> literal Lean table -> decide +kernel obligations + generic round-trip theorem; exact correspondence "
+            "of stored values via the driver; differential oracle on real from_config / Keras JSON / save-load at k in {0,1,5} steps",
+            "Theorems (Props/C11.lean): a generic theorem (roundtrip) proves that any class whose get_config keys equal its "
+            "constructor parameters, each read through an idempotent normaliser, round-trips through from_config to an equal "
+            "config; its premises are RE-PROVED ON EVERY RUN over a table extracted from the current source of all 39 classes "
+            "(table_rows_ok; the four premade models are the only exceptions: F-C11-d); the utils canonicalisers are idempotent and "
+            "tuple/list-insensitive; seed-derived structures are functions of the config.",
+            "4/C11", "PARTIAL: Keras composites (initializers.get/serialize, regularizer lists, nested configs) are idempotence "
+            "hypotheses exercised on the real objects; h5/.keras/SavedModel machinery and crash points during save are runtime "
+            "only; findings F-C11-d..h listed. "),
+    "C16": ("small-domain cross-product translator -> pooled mixed-radix Lean table -> decide +kernel; stage-spec lemmas by "
+            "inversion of the Except monad; real-layer exercise oracle keyed (layer, stage, exception, predicate)",
+            "Theorems (Props/C16.lean): every verify_hyperparameters, the constructor checks around them and the canonicalisers "
+            "are modelled as Raw -> Except Err Cfg; agreement with the REAL constructors is proved over 32 772 tabulated rows "
+            "regenerated from /repo on every run (accept_*) and checked through the driver on ~2e5 more (thorough); accepted "
+            "configurations have every index in range and every guard the projection models need (verifyLattice_cfgWF gives "
+            "C01's CfgWF; PWL piece lengths > 0; ...); synonymous spellings canonicalise equally.",
+            "4/C16", "PARTIAL: `verify ok => projection/evaluation return ok and finite` is proved only through CfgWF feeding C01's "
+            "theorems; every accepted row is exercised on the real code; 15 finding buckets F-C16-a,e,f,h..s listed. "),
     "C04": ("Lean 4 theorems on an executable model of pwl_calibration_lib.project_all_constraints (Dykstra loop with last_change, "
             "finalisation, squeeze) + differential correspondence (PWLCalibrationConstraints, layer wiring, private stages) + oracle",
             "Theorems (Props/C04.lean), all kernels/sizes/positive spacings/iteration counts: result monotone exactly, within "
